@@ -16,7 +16,7 @@ CLAIMS = {}
 
 
 def claim(pid, technique, text, note, ref):
-    from tools.manifest_table import ROUND3, ROUND4, ROUND5, ROUND6, ROUND7, ROUND8
+    from tools.manifest_table import ROUND3, ROUND4, ROUND5, ROUND6, ROUND7, ROUND8, ROUND9
     if pid in ROUND3:
         text = text.rstrip() + " Added after the third seed round: " + ROUND3[pid]
     if pid in ROUND5:
@@ -27,6 +27,8 @@ def claim(pid, technique, text, note, ref):
         text = text.rstrip() + " Added after the seventh seed round (one interleaving / boundary input): " + ROUND7[pid]
     if pid in ROUND8:
         text = text.rstrip() + " Added after the eighth seed round (non-default mode / resource lifecycle): " + ROUND8[pid]
+    if pid in ROUND9:
+        text = text.rstrip() + " Added after the ninth seed round (additive feature / new path, optimisation): " + ROUND9[pid]
     if pid in ROUND4:
         text = text.rstrip() + " " + ROUND4[pid]
         technique = technique + " + two-party typestate product of the dilation machines (abstract interpretation of Manager / TrafficTimer / Connector sources, EF-reachability)"
